@@ -7,20 +7,22 @@
    are appended in breadth-first order: Key(s) = the largest argument number of s (0 for
    placeholders) never decreases, and statements with equal keys are ordered by operator and
    arguments.  Every dataflow DAG has such an order (place ready statements by smallest key first).
-   Programs in which a defined value is never used are skipped (Hydro would attach a null sink;
-   that case is covered by the unused input in1/in2 and by hand-written programs).
+   Programs in which more than AllowUnused defined values are never used are skipped (Hydro
+   attaches a null sink to a dropped collection; the inputs in1/in2 may always stay unused).
 
    CONSTANTS
      MaxStmts   number of statements after the two inputs (including `out`)
      Vocab      the operators that may be used (subset of AllOps; always add "out")
      MaxTC, MaxFwd   how many tick-cycle / forward-reference placeholders a program may create
      PlaceE     element types allowed for placeholders (to bound the enumeration)
+     AllowUnused  how many defined values a finished program may leave unused (Hydro attaches a
+                null sink to a dropped collection); 0 in the exhaustive jobs
      PRUNE      cut prefixes that cannot be finished within MaxStmts (FALSE only for the self-check
                 that pruning loses no program)
      EMIT       print finished programs *)
 EXTENDS HydroProg, Json
 
-CONSTANTS MaxStmts, Vocab, MaxTC, MaxFwd, PlaceE, PRUNE, EMIT
+CONSTANTS MaxStmts, Vocab, MaxTC, MaxFwd, PlaceE, AllowUnused, PRUNE, EMIT
 
 VARIABLES prog
 vars == <<prog>>
@@ -79,9 +81,9 @@ Feasible(p) ==
        ELSE IF ~PRUNE THEN left >= 1
        ELSE /\ left >= 1 + nopen                       \* one statement per open placeholder, then `out`
             \* `out` uses one value, any other statement at most two
-            /\ Cardinality(unused) <= 2 * (left - 1) + 1
+            /\ Cardinality(unused) <= 2 * (left - 1) + 1 + AllowUnused
             \* only `out` is left: it must take the one unused value, and respect the order
-            /\ (left = 1 =>
+            /\ (left = 1 /\ AllowUnused = 0 =>
                   /\ \A v \in unused : Outable(p[v].ty) /\ v >= Key(p[n])
                   /\ \E v \in Vals(p) : Outable(p[v].ty) /\ v >= Key(p[n]))
 
@@ -95,7 +97,8 @@ Next ==
           /\ prog' = Append(prog, s)
           /\ Feasible(prog')
           /\ (s.op = "out" => /\ Open(prog) = {}
-                              /\ \A v \in 3..Len(prog) : prog[v].ty.k # "none" => UseCount(prog', v) >= 1
+                              /\ Cardinality({v \in 3..Len(prog) : prog[v].ty.k # "none" /\ UseCount(prog', v) = 0})
+                                     <= AllowUnused
                               /\ SyncAcyclic(prog'))
 Spec == Init /\ [][Next]_vars
 
